@@ -1,3 +1,5 @@
+//go:build !386
+
 // Package c20 decides C20: the numeric helpers of math.go and the utility
 // helpers of util.go are correct over the whole value range.
 //
@@ -19,9 +21,27 @@
 //	             and garbage collections; calls aborted by a panicking / Goexit-ing IsZero method before ordinary calls
 //	C20.repeat   2^16+3 and 2^17+3 consecutive calls of each helper alternating between two arguments (call counters, caches)
 //	C20.repeat32 thorough only: 2^32+3 consecutive calls
+//	C20.gap      a call, then exactly 2^16-1, 2^16, 2^16+1 calls of the same helper on DIFFERENT data, then the first call again (16-bit generation stamps)
+//	C20.sleep    the same history with a real sleep of 2.1 s (thorough: 5.1 s) in the middle (state released when wall-clock time has passed)
+//	C20.huge     grid + rapid: 2^22..2^24 (+-1) arguments of one byte each, strings of that many bytes; GOMAXPROCS switched by another goroutine
+//	             while the call runs; Crashy (stack overflow of a recursion per element / per chunk)
+//	C20.edge     grid + rapid: argument slices and strings that end (start) exactly at the end (beginning) of readable memory (mmap + PROT_NONE
+//	             neighbours, SetPanicOnFault); Crashy
+//	C20.local    grid + rapid: four distinct function-local types all called job used alternately; slices of local arrays as arguments with results
+//	             kept across a forced move of the goroutine's stack
+//	C20.first    fresh processes (the test binary re-executing itself): 2..16 goroutines make the process's FIRST calls of each helper at the same
+//	             instant (state built lazily on first use without synchronisation)
+//	C20.x86      (x86_test.go, //go:build 386, its own test binary built with GOARCH=386) the integer and floating helpers where int, uint
+//	             and uintptr are 32 bits wide
 //
-// All units except big and bigcoal (which change GOMAXPROCS) and repeat32 also run one case in 8 or 16 as four parallel
-// independent copies (Spec.Replicas): every Run function here is reentrant (package-level tables are read-only after init).
+// All units except big, bigcoal, huge (which change GOMAXPROCS), first, sleep and repeat32 also run one case in 8 or 16 as four
+// parallel independent copies (Spec.Replicas): every Run function here is reentrant (package-level tables are read-only after init).
+//
+// Classes of the fourth round that do not apply to this package: results whose parts share one backing array (every result here is
+// a scalar, a string that was an argument, or a fresh pointer - C20.seq and C20.local write through one Ref result and re-read the
+// other), String()/formatting methods and outputs of 2^k bytes (the helpers format nothing), the library's own sort (none of the
+// helpers sorts), zero-size slices combined with an aborting callback (only IsZero takes a callback - the IsZero method - and it takes one
+// value; 2^20..2^32 zero-size arguments of Coal are in C20.bigcoal).
 package c20
 
 import (
@@ -150,4 +170,12 @@ func TestC20Bigcoal(t *testing.T) {
 func TestC20Repeat(t *testing.T)   { pbt.Check(t, specRepeat) }
 func TestC20Repeat32(t *testing.T) { pbt.Check(t, specRepeat32) }
 func TestC20Seq(t *testing.T)      { pbt.Check(t, specSeq) }
-func TestReplay(t *testing.T)      { pbt.Replay(t) }
+func TestC20Huge(t *testing.T) {
+	debug.SetGCPercent(400)
+	pbt.Check(t, specHuge)
+}
+func TestC20Edge(t *testing.T)  { pbt.Check(t, specEdge) }
+func TestC20Local(t *testing.T) { pbt.Check(t, specLocal) }
+func TestC20Gap(t *testing.T)   { pbt.Check(t, specGap) }
+func TestC20Sleep(t *testing.T) { pbt.Check(t, specSleep) }
+func TestReplay(t *testing.T)   { pbt.Replay(t) }
